@@ -470,7 +470,22 @@ def coq_call(h, c, presets):
 
 
 def coq_history(h, presets, step="boot_step"):
-    return "observe_run %s %s" % (step, vlist(coq_call(h, c, presets) for c in h["calls"]))
+    if step == "boot_step":
+        return "observe_run %s %s" % (step, vlist(coq_call(h, c, presets) for c in h["calls"]))
+    # The code as found modified the dictionary object it was given.  The Coq model takes dictionary VALUES, so
+    # the aliasing between calls (a caller's dictionary or a preset object passed again) is threaded here.
+    h2 = dict(slots=[[list(kv) for kv in s_] for s_ in h["slots"]], calls=h["calls"])
+    pres = dict((k, [list(kv) for kv in v]) for k, v in presets.items())
+    calls = []
+    for c in h["calls"]:
+        calls.append(coq_call(h2, c, pres))
+        ov = c["overrides"]
+        if ov is not None and "fresh" not in ov:
+            obj = h2["slots"][ov["slot"]] if "slot" in ov else pres["spin%d" % ov["preset"]]
+            d = dict((k, v) for k, v in obj)
+            d.update((k, v) for k, v in received_kwargs(c, pres))
+            obj[:] = [[k, v] for k, v in d.items()]
+    return "observe_run %s %s" % (step, vlist(calls))
 
 
 def canon_model(v):
@@ -639,7 +654,8 @@ def run(chk, args):
     # ---- model
     if chk.model_ok and good:
         try:
-            exprs = [coq_history(h, o["presets_before"]) for h, o in good]
+            step = os.environ.get("C20_STEP", "boot_step")    # boot_orig_step: validate the model of the code as found
+            exprs = [coq_history(h, o["presets_before"], step) for h, o in good]
             costs = [sum(image_len(c["image"]) + 2000 for c in h["calls"]) for h, _ in good]
             nsh = max(1, min(24, len(exprs) // 3))
             perm = spread(costs, nsh)
@@ -655,7 +671,7 @@ def run(chk, args):
                     bad = (h, o, first_difference(m, im))
                     break
             if bad is None:
-                chk.oblige("correspondence:boot (%d histories, %d boots: every datagram, returned defaults, "
+                chk.oblige("correspondence:" + step + " (%d histories, %d boots: every datagram, returned defaults, "
                            "destination, caller's and shared dictionaries)" % (len(good), chk.traces_validated), True)
             else:
                 h, o, what = bad
